@@ -76,7 +76,7 @@ mod imp {
                 let ex = |ti: usize| to_recexpr::<T>(&uni.terms[ti - 1], &nm).unwrap();
                 let mut key = st.key.clone();
                 if variant == 1 { key.reverse(); }
-                let mut asserted = Vec::new();
+                let mut asserted: Vec<Value> = Vec::new();
                 let built = guard(|| {
                     let mut eg: EGraph<T> = EGraph::default();
                     let mut asserted = Vec::new();
@@ -94,6 +94,39 @@ mod imp {
                     Ok((eg, a)) => { asserted = a; eg }
                     Err(_) => { nbuild_panics += 1; continue; } // D1/D2: attributed to C08
                 };
+                // rule applications: rewrite rules whose applier logs every instantiated pair and
+                // asserts it with the rule's name as justification (= union_instantiations)
+                if variant == 1 {
+                    let rules: Vec<(&str, String, String)> = vec![
+                        ("hcomm", "(h ?a ?b)".into(), "(h ?b ?a)".into()),
+                        ("gg", "(g (g ?a))".into(), "?a".into()),
+                        ("hidem", "(h ?a ?a)".into(), "?a".into()),
+                        ("lamh", format!("(lam {} (h ?a (v {})))", nm.slot(1), nm.slot(1)), format!("(lam {} (h (v {}) ?a))", nm.slot(1), nm.slot(1))),
+                        ("fswap", format!("(f {} {})", nm.slot(1), nm.slot(2)), format!("(f {} {})", nm.slot(2), nm.slot(1))),
+                    ];
+                    let pick = (si + seed) % rules.len();
+                    let r2 = guard(|| {
+                        let mut logged = Vec::new();
+                        for round in 0..2 {
+                            let (name, l, r) = &rules[(pick + round) % rules.len()];
+                            let (lp, rp) = (Pattern::<T>::parse(l).unwrap(), Pattern::<T>::parse(r).unwrap());
+                            for sb in ematch_all(&eg, &lp) {
+                                let la = pattern_subst(&mut eg, &lp, &sb);
+                                let lb = pattern_subst(&mut eg, &rp, &sb);
+                                let mut bn = BackNamer::new(&nm, 100);
+                                let (ta, tb) = (bn.term(&eg.get_syn_expr(&la)), bn.term(&eg.get_syn_expr(&lb)));
+                                eg.union_justified(&la, &lb, Some(name.to_string()));
+                                logged.push(json!({"a": ta, "b": tb, "j": name}));
+                                if logged.len() > 40 { break; }
+                            }
+                        }
+                        logged
+                    });
+                    match r2 {
+                        Ok(l) => asserted.extend(l),
+                        Err(_) => { nbuild_panics += 1; continue; }
+                    }
+                }
                 // candidate pairs: pool terms the implementation considers equal
                 let mut pairs = Vec::new();
                 let found: Vec<Option<AppliedId>> = uni.terms.iter().enumerate().map(|(i, _)| lookup_rec_expr(&ex(i + 1), &eg)).collect();
